@@ -62,7 +62,9 @@ def gen_series(rng, n, kind, missing_ok):
     nan_p = rng.pick((0.0, 0.1, 0.3, 1.0)) if rng.chance(0.7) else 0.0
     if kind == "inp":
         vals = wl.gen_values(rng, n, nan_p=nan_p)
-        carrier = rng.weighted([("ndarray", 5), ("list", 4), ("masked", 2 if missing_ok else 0)])
+        carrier = rng.weighted([("ndarray", 5), ("list", 4), ("masked", 2 if missing_ok else 0), ("tuple", 1), ("readonly", 2), ("float32", 1), ("int_list", 1)])
+        if carrier == "int_list":
+            vals = [None if v is None else float(int(v)) for v in vals]
         return {"carrier": carrier, "values": vals, "under": rng.pick((0.0, 4.0, -1e6))}
     if kind == "tinp":
         return {"carrier": rng.weighted([("dt64", 6), ("epoch_list", 2), ("dt64_s", 2)]), "values": wl.gen_times(rng, n)}
@@ -170,7 +172,7 @@ def generate(rng, tier="quick"):
             of = rng.pick(calls)
             src = ops[of]
             data = perturb_data(rng, src["data"])
-            if any(len(data[k]["values"]) != len(src["data"][k]["values"]) for k in data) or any(v["carrier"] in ("dt64_nat",) for v in data.values()):
+            if any(len(data[k]["values"]) != len(src["data"][k]["values"]) for k in data) or any(v["carrier"] in ("dt64_nat", "tuple", "readonly") for v in data.values()):
                 op = {"op": "repeat", "of": of, "dirty": dirty}
             else:
                 op = {"op": "mutate", "of": of, "fn": src["fn"], "data": data, "dirty": dirty}
@@ -201,6 +203,16 @@ def build_series(spec):
     vals = spec["values"]
     if c == "list":
         return [None if v is None else float(v) for v in vals]
+    if c == "tuple":
+        return tuple(float("nan") if v is None else float(v) for v in vals)
+    if c == "int_list":
+        return [None if v is None else int(v) for v in vals] if any(v is None for v in vals) else [int(v) for v in vals]
+    if c == "readonly":
+        arr = np.array([np.nan if v is None else v for v in vals], dtype="float64")
+        arr.setflags(write=False)
+        return arr
+    if c == "float32":
+        return np.array([np.nan if v is None else v for v in vals], dtype="float32")
     if c == "list_nan":
         return [float("nan") if v is None else float(v) for v in vals]
     if c == "ndarray":
@@ -538,7 +550,7 @@ def candidates(scn):
                         c["ops"][i]["data"][k]["values"] = c["ops"][i]["data"][k]["values"][:cut]
                     yield c
             for k, spec in data.items():
-                if spec["carrier"] in ("list", "masked"):
+                if spec["carrier"] in ("list", "masked", "tuple", "readonly", "float32", "int_list"):
                     c = copy.deepcopy(scn)
                     c["ops"][i]["data"][k]["carrier"] = "ndarray"
                     yield c
